@@ -19,6 +19,8 @@ TRANSLATOR_PARTS = ["scalars_key", "defaults"]   # defaults: Props/C04_Defaults.
 # the event-metric glue (util._fast_hit_windows, util.match_events, onset / beat f_measure, segment.detection / deviation)
 # is REGENERATED too (translate/evglue.py -> MirGen/EvGlue.lean); Props/C04_GenGlue.lean proves it equal to the hand models
 TRANSLATOR_PARTS += ["evglue"]
+# ... and the transcription P / R / F functions (translate/trmatch.py -> MirGen/TrMatch.lean; Props/C04_GenTr.lean)
+TRANSLATOR_PARTS += ["trmatch"]
 _here = os.path.dirname(os.path.abspath(__file__))
 _props = os.path.join(os.path.dirname(os.path.dirname(_here)), "lean", "MirProofs", "Props")
 LEAN_MODULES = sorted("MirProofs.Props." + os.path.basename(f)[:-5]
@@ -185,6 +187,17 @@ def suite_gen_evglue(rng, tier, shard, nshards):
 
 
 SUITES["gen_evglue"] = suite_gen_evglue
+
+
+def suite_gen_trmatch_prf(rng, tier, shard, nshards):
+    import evglue_cases
+    for c in evglue_cases.trmatch_cases(rng, tier, shard, nshards, only=("onset_precision_recall_f1",
+                                                                        "offset_precision_recall_f1",
+                                                                        "precision_recall_f1_overlap")):
+        yield c
+
+
+SUITES["gen_trmatch.prf"] = suite_gen_trmatch_prf
 
 CHECKERS = {"documented_defaults": check_defaults}
 ORACLES = {"documented_defaults": gen_defaults}
